@@ -534,3 +534,40 @@ def probe_points(node, params_row, n, rng, pad=0.3):
         res[v] = u[:, j:j + d]
         j += d
     return res
+
+
+# ------------------------------------------------- boundary features (C06)
+def feature_dists(node, P):
+    """List of arrays: distance of every row to each boundary *feature* (edge
+    line of a polygon, circle/sphere surface, interval end) of the solid node."""
+    rows = _rows(P)
+    k = node["k"]
+    if k == "iv":
+        p = P[node["var"]][:, 0]
+        return [np.abs(p - ev(node["a"], P, rows)), np.abs(p - ev(node["b"], P, rows))]
+    if k in ("circ", "sph"):
+        c = evv(node["c"], P, rows)
+        return [np.abs(ev(node["r"], P, rows) - np.linalg.norm(P[node["var"]] - c, axis=1))]
+    if k in ("par", "tri"):
+        verts = corners(node, P, rows)
+        a = verts
+        b = np.roll(verts, -1, axis=1)
+        e = b - a
+        nrm = np.stack([-e[:, :, 1], e[:, :, 0]], axis=2)
+        nrm = nrm / np.linalg.norm(nrm, axis=2, keepdims=True)
+        d = np.abs(np.sum((P[node["var"]][:, None, :] - a) * nrm, axis=2))
+        return [d[:, i] for i in range(d.shape[1])]
+    if k == "poly":
+        v = np.asarray(node["verts"], float)
+        p = P[node["var"]]
+        return [_seg_dist(p, v[i], v[(i + 1) % len(v)]) for i in range(len(v))]
+    if k in ("union", "cut", "inter", "prod"):
+        return feature_dists(node["a"], P) + feature_dists(node["b"], P)
+    if k in ("transl", "rot"):
+        return feature_dists(node["d"], _pullback(node, P))
+    raise ValueError(k)
+
+
+def n_features_near(node, P, r):
+    d = np.stack(feature_dists(node, P), axis=1)
+    return (d <= r).sum(axis=1)
